@@ -18,7 +18,12 @@ Definition ev_okb (s : sstate) (ev : event) : bool :=
 
 Definition hist_ok_evb (s : sstate) (ev : event) : bool :=
   (negb (st_shut s) || match ev with EProbe | ERestart _ => true | _ => false end) &&
-  match ev with EIpcUnlock name None => bool_decide ([] ∉ ipc_candidates name s) | _ => true end.
+  match ev with
+  | EConnect sid => bool_decide (sid ∉ st_used s) && bool_decide (st_sessions s !! sid = None) &&
+                    bool_decide (sid ∉ w_sid <$> st_waiters s)
+  | EIpcUnlock name None => bool_decide ([] ∉ ipc_candidates name s)
+  | _ => true
+  end.
 
 Definition next_okb (ev : event) (h' : list event) : bool :=
   match ev with
@@ -42,7 +47,9 @@ Proof.
     + apply andb_true_iff in H1 as [?%bool_decide_eq_true ?%bool_decide_eq_true]. done.
   - unfold hist_ok_evb in H2. apply andb_true_iff in H2 as [H2 H2']. split.
     + intros Hs. rewrite Hs in H2. simpl in H2. destruct ev; try done; eauto.
-    + destruct ev; try done. destruct key; [done|]. by apply bool_decide_eq_true in H2'.
+    + destruct ev; try done.
+      * apply andb_true_iff in H2' as [[?%bool_decide_eq_true ?%bool_decide_eq_true]%andb_true_iff ?%bool_decide_eq_true]. done.
+      * destruct key; [done|]. by apply bool_decide_eq_true in H2'.
   - destruct ev; try done. destruct key; [done|]. simpl in *. destruct h as [|[] ?]; done.
   - intros s' o Hin. apply IH. rewrite forallb_forall in H4. apply (H4 (s', o)). by apply elem_of_list_In.
 Qed.
@@ -146,6 +153,26 @@ Example ex_gc_late :
       (EAdvance (31 * second), []);
       (ETryLock (Some sA) nA (Some 2) None (k x32), [OResp (RLock true (k x32) None)]) ]
   = [].
+Proof. vm_compute. reflexivity. Qed.
+
+(** FRESH: after a restart a new connection gets the id of a session whose holds were restored; its disconnect
+    would end those holds *)
+Example ex_doctored_sid :
+  track_failures ex_cfg
+    [ (EConnect sA, []);
+      (ETryLock (Some sA) nA None None (k x31), [OResp (RLock true (k x31) None)]);
+      (ERestart [], []);
+      (EConnect sA, []) ]
+  = [(3%nat, "FRESH:session-id-reused"%string)].
+Proof. vm_compute. reflexivity. Qed.
+
+Example ex_doctored_key :
+  track_failures ex_cfg
+    [ (EConnect sA, []);
+      (ETryLock (Some sA) nA None None (k x31), [OResp (RLock true (k x31) None)]);
+      (EUnlock None nA (k x31), [OResp (RUnlock true None)]);
+      (ETryLock (Some sA) nA None None (k x31), [OResp (RLock true (k x31) None)]) ]
+  = [(3%nat, "FRESH:key-reused"%string)].
 Proof. vm_compute. reflexivity. Qed.
 
 (** ** The two histories on which the first version of the oracle raised false alarms *)
